@@ -31,6 +31,14 @@ def install() -> None:
     import bitproto._ast as A
     from bitproto.renderer.formatter import Formatter
 
+    try:
+        _install_all(icontract, A, Formatter)
+    except AttributeError as e:  # a watched function was renamed/removed: the remaining contracts stay installed
+        COUNTS["install_incomplete:" + str(e)[:60]] = 1
+
+
+def _install_all(icontract, A, Formatter) -> None:
+
     # -- Type.nbytes == ceil(nbits/8) -------------------------------------------
     def nbytes_ok(self, result):
         _c("Type.nbytes")
